@@ -254,7 +254,7 @@ ReRead(c) ==
 
 \* an aborted task: its future is dropped at its await point, or before it ever ran
 HCancel(c) ==
-  /\ c \in cancelArmed /\ (cpc[c] = "waiting" \/ (fresh[c] = "start" /\ cpc[c] # "done"))
+  /\ c \in cancelArmed /\ (cpc[c] = "waiting" \/ fresh[c] = "start")   \* "start": the task never ran
   /\ SetC(c, <<"done", "cancelled">>)
   /\ UNCHANGED <<mvars, wvars, h, notified, running, aux>>
 
